@@ -62,6 +62,10 @@ class C09(Check):
         # histories that start after a complete first pass (cache filled): the free steps then suffice for size
         # histories A -> B -> A over one cached frame
         out.append({"part": "image_iterator", "n": 2, "steps": k + 2, "cached": True, "warm": 2})
+        # the image's size setting is dynamic (the default): "resize" is then a change of the environment (terminal size /
+        # cell ratio) that changes the computed size while the setting stays the same enum member
+        out.append({"part": "image_iterator", "n": 2, "steps": k + 2, "cached": True, "dynamic": True})
+        out.append({"part": "image_iterator", "n": 2, "steps": k + 1, "cached": True, "warm": 2, "dynamic": True})
         if tier != "quick":
             out.append({"part": "image_iterator", "n": 3, "steps": k + 2, "cached": True, "warm": 3})
         return out
@@ -224,6 +228,11 @@ class C09(Check):
         type(img)._render_image = render_image
         w0, h0 = eng.int("w0", 1), eng.int("h0", 1)
         img._size = (w0, h0)
+        dyn = bool(shape.get("dynamic"))
+        cur = [(w0, h0)]
+        if dyn:
+            img._size = common.Size.FIT
+            type(img)._valid_size = lambda self_, *a, **k: cur[0]
         it = common.ImageIterator(img, 2, "1.1", shape["cached"])
         eng.claim("ImageIterator honours the cached argument", bool(it._cached) == shape["cached"])
         expected_pos = 0
@@ -247,7 +256,7 @@ class C09(Check):
                 eng.claim(f"step {i}: a frame is yielded while passes remain", fr is not None)
                 if fr is None:
                     break
-                w, h = img._size
+                w, h = cur[0] if dyn else img._size
                 exp = render_image(img, None, None) if False else None
                 from sx import tstr
 
@@ -257,7 +266,10 @@ class C09(Check):
                 expected_pos += 1
             elif op == 1:
                 nw, nh = eng.int(f"w{i}", 1), eng.int(f"h{i}", 1)
-                img._size = (nw, nh)
+                if dyn:
+                    cur[0] = (nw, nh)
+                else:
+                    img._size = (nw, nh)
             else:
                 pos = eng.choice(f"seek{i}", n)
                 try:
